@@ -9,12 +9,15 @@
 //!                     hypotheses of the refinement theorem (oracle on the code's output),
 //!   * oracles that need no model: strict decoys never change, a resolution error means exit 1 and
 //!     no change, listed = changed, each file listed once, skip / ignore / @generated / skip_children.
-//! Known-dirty shapes of the pinned tree are enumerated probes (F13a..F13g).
+//! Known-dirty shapes of the pinned tree are enumerated probes (F13a..F13j).
+//! `cfg_if!` / `cfg_match!` calls are sent to the model as written (blocks, other items, nested calls, tokens that
+//! are no item, the three classes of skeletons): the model decides what the resolver discovers in them.
 use std::collections::{BTreeMap, BTreeSet};
 use std::path::{Path, PathBuf};
 use std::process::Command;
 use std::time::Duration;
 
+use rustfmt_nightly::verif_hooks::cfgif as hcfg;
 use rustfmt_nightly::verif_hooks::modules as hm;
 use serde_json::{json, Value};
 
@@ -32,15 +35,31 @@ pub enum Attr {
     Cfg(String),
 }
 
+/// The `if / else if / else` skeleton of a `cfg_if!` body (arm skeleton of a `cfg_match!` body), `MacShape` of the model;
+/// the number picks one of the spellings of that class (see `render_items`).
+#[derive(Clone, Copy, Debug, PartialEq)]
+pub enum Shape {
+    /// well formed for the macro and for `parse_cfg_if` / `parse_cfg_match`
+    Chain,
+    /// accepted by rustfmt's parser only (`.. else { } else { }`; a `_` arm that is not the last)
+    Loose(u8),
+    /// rejected by rustfmt's parser: no `if`, no `#[..]`, no `else` between two blocks; no `=>`, expression position
+    Broken(u8),
+}
+
 #[derive(Clone, Debug)]
 pub enum Item {
     Ext { name: String, attrs: Vec<Attr> },
     Inl { name: String, attrs: Vec<Attr>, inner_skip: bool, items: Vec<Item> },
-    /// `cfg_if! { if #[cfg(..)] { b0 } else if .. { b1 } else { bn } }`; `nested` is a `mod <name>;` inside a
-    /// nested `cfg_if!` of the first branch (dropped by `parse_cfg_if`, so never resolved)
-    CfgIf { branches: Vec<Vec<Item>>, nested: Option<String>, qualified: bool },
+    /// `cfg_if! { if #[cfg(..)] { b0 } else if .. { b1 } else { bn } }`; a block may hold declarations, other items,
+    /// further macro calls (dropped by `parse_cfg_if`) and tokens that are no item (the whole call is then given up)
+    CfgIf { shape: Shape, branches: Vec<Vec<Item>>, qualified: bool },
     /// `cfg_match! { cfg(..) => { b0 } _ => { bn } }`
-    CfgMatch { branches: Vec<Vec<Item>>, qualified: bool },
+    CfgMatch { shape: Shape, branches: Vec<Vec<Item>>, qualified: bool },
+    /// an item that is no module (`use`, `struct`, a macro call, ..)
+    Other(u8),
+    /// tokens `parse_item` rejects with an error (never a token on which it returns `Ok(None)`: F13j)
+    Junk(u8),
 }
 
 #[derive(Clone, Debug)]
@@ -58,7 +77,8 @@ pub enum Node {
 
 pub type Tree = BTreeMap<String, Node>;
 
-/// The `mod` items in the order the resolver meets them: macro bodies are replaced by their items.
+/// Every `mod` item of the list, those of all blocks of all macro calls included (whatever the resolver makes of the call:
+/// files are created for all of them, so that "is it formatted" is a question for each).
 fn flat(items: &[Item]) -> Vec<&Item> {
     let mut out = vec![];
     for it in items {
@@ -68,6 +88,7 @@ fn flat(items: &[Item]) -> Vec<&Item> {
                     out.extend(flat(b));
                 }
             }
+            Item::Other(_) | Item::Junk(_) => {}
             _ => out.push(it),
         }
     }
@@ -91,6 +112,69 @@ fn count_macros(items: &[Item]) -> usize {
             _ => 0,
         })
         .sum()
+}
+
+#[derive(Default)]
+struct MacroStats {
+    nested_with_mod: bool,
+    junk: bool,
+    loose: bool,
+    broken: bool,
+    same_mod_twice: bool,
+    inline_in_block: bool,
+    attr_in_block: bool,
+    three_blocks: bool,
+    mod_after_first_block: bool,
+}
+
+fn macro_stats(items: &[Item], in_block: bool, ms: &mut MacroStats) {
+    for it in items {
+        match it {
+            Item::CfgIf { shape, branches, .. } | Item::CfgMatch { shape, branches, .. } => {
+                if in_block && !flat(std::slice::from_ref(it)).is_empty() {
+                    ms.nested_with_mod = true;
+                }
+                match shape {
+                    Shape::Loose(_) => ms.loose = true,
+                    Shape::Broken(_) => ms.broken = true,
+                    Shape::Chain => {}
+                }
+                if branches.len() >= 3 {
+                    ms.three_blocks = true;
+                }
+                let names: Vec<Vec<&String>> = branches.iter().map(|b| b.iter().filter_map(|x| if let Item::Ext { name, .. } = x { Some(name) } else { None }).collect()).collect();
+                for (i, a) in names.iter().enumerate() {
+                    if i > 0 && !a.is_empty() {
+                        ms.mod_after_first_block = true;
+                    }
+                    for b in names.iter().skip(i + 1) {
+                        if a.iter().any(|x| b.contains(x)) {
+                            ms.same_mod_twice = true;
+                        }
+                    }
+                }
+                for b in branches {
+                    macro_stats(b, true, ms);
+                }
+            }
+            Item::Inl { items, attrs, .. } => {
+                if in_block {
+                    ms.inline_in_block = true;
+                    if !attrs.is_empty() {
+                        ms.attr_in_block = true;
+                    }
+                }
+                macro_stats(items, false, ms);
+            }
+            Item::Ext { attrs, .. } => {
+                if in_block && !attrs.is_empty() {
+                    ms.attr_in_block = true;
+                }
+            }
+            Item::Junk(_) => ms.junk = true,
+            Item::Other(_) => {}
+        }
+    }
 }
 
 fn inline_depth(items: &[Item]) -> usize {
@@ -157,20 +241,31 @@ fn enc_item(it: &Item, out: &mut Vec<String>) {
             if *inner_skip {
                 out.push("s".into());
             }
-            let f = flat(items);
-            out.push(f.len().to_string());
-            for x in f {
+            out.push(items.len().to_string());
+            for x in items {
                 enc_item(x, out);
             }
         }
-        _ => unreachable!("macro groups are flattened before encoding"),
+        // macro calls are sent as written: the model decides what is discovered in them
+        Item::CfgIf { shape, branches, .. } | Item::CfgMatch { shape, branches, .. } => {
+            out.push(if matches!(it, Item::CfgIf { .. }) { "m" } else { "t" }.into());
+            out.push(match shape { Shape::Chain => "c", Shape::Loose(_) => "l", Shape::Broken(_) => "b" }.into());
+            out.push(branches.len().to_string());
+            for b in branches {
+                out.push(b.len().to_string());
+                for x in b {
+                    enc_item(x, out);
+                }
+            }
+        }
+        Item::Other(_) => out.push("o".into()),
+        Item::Junk(_) => out.push("j".into()),
     }
 }
 
 fn enc_items(items: &[Item]) -> String {
-    let f = flat(items);
-    let mut out = vec![f.len().to_string()];
-    for x in f {
+    let mut out = vec![items.len().to_string()];
+    for x in items {
         enc_item(x, &mut out);
     }
     out.join(",")
@@ -235,45 +330,55 @@ fn render_items(items: &[Item], ind: &str, out: &mut String) {
                 render_items(items, &ind2, out);
                 out.push_str(&format!("{}}}\n", ind));
             }
-            Item::CfgIf { branches, nested, qualified } => {
+            Item::CfgIf { shape, branches, qualified } => {
                 out.push_str(&format!("{}{}cfg_if! {{\n", ind, if *qualified { "cfg_if::" } else { "" }));
                 let n = branches.len();
                 for (i, b) in branches.iter().enumerate() {
+                    let if_cfg = format!("if #[cfg({})] {{\n", CFGS[i % 3]);
                     let head = if i == 0 {
-                        format!("{}if #[cfg({})] {{\n", ind2, CFGS[0])
-                    } else if i + 1 == n {
-                        " else {\n".to_string()
+                        match shape {
+                            Shape::Broken(0) => format!("{}#[cfg({})] {{\n", ind2, CFGS[0]),
+                            Shape::Broken(1) => format!("{}if cfg({}) {{\n", ind2, CFGS[0]),
+                            _ => format!("{}{}", ind2, if_cfg),
+                        }
                     } else {
-                        format!(" else if #[cfg({})] {{\n", CFGS[i % 3])
+                        match shape {
+                            // no `else` between two blocks
+                            Shape::Broken(2) => format!(" {}", if_cfg),
+                            // every later block is an `else { }`; spelling 1 ends with an `else if` after them
+                            Shape::Loose(v) => if *v == 1 && i + 1 == n { format!(" else {}", if_cfg) } else { " else {\n".to_string() },
+                            _ => if i + 1 == n { " else {\n".to_string() } else { format!(" else {}", if_cfg) },
+                        }
                     };
                     out.push_str(&head);
                     let ind3 = format!("{}    ", ind2);
-                    if i == 0 {
-                        if let Some(nm) = nested {
-                            out.push_str(&format!("{}cfg_if! {{\n{}    if #[cfg(test)] {{\n{}        mod {};\n{}    }}\n{}}}\n", ind3, ind3, ind3, nm, ind3, ind3));
-                        }
-                    }
                     out.push_str(&format!("{}fn  w( ){{}}\n", ind3));
                     render_items(b, &ind3, out);
                     out.push_str(&format!("{}}}", ind2));
                 }
                 out.push_str(&format!("\n{}}}\n", ind));
             }
-            Item::CfgMatch { branches, qualified } => {
-                out.push_str(&format!("{}{}cfg_match! {{\n", ind, if *qualified { "std::" } else { "" }));
+            Item::CfgMatch { shape, branches, qualified } => {
+                let expr_pos = *shape == Shape::Broken(1);
+                out.push_str(&format!("{}{}cfg_match! {{{}\n", ind, if *qualified { "std::" } else { "" }, if expr_pos { "{" } else { "" }));
                 let n = branches.len();
                 for (i, b) in branches.iter().enumerate() {
-                    if i + 1 == n && n > 1 {
-                        out.push_str(&format!("{}_ => {{\n", ind2));
+                    let arrow = if *shape == Shape::Broken(0) && i == 0 { "" } else { "=> " };
+                    // loose: the `_` arm comes first
+                    let wildcard = match shape { Shape::Loose(_) => i == 0, _ => i + 1 == n && n > 1 };
+                    if wildcard {
+                        out.push_str(&format!("{}_ {}{{\n", ind2, arrow));
                     } else {
-                        out.push_str(&format!("{}cfg({}) => {{\n", ind2, CFGS[i % 3]));
+                        out.push_str(&format!("{}cfg({}) {}{{\n", ind2, CFGS[i % 3], arrow));
                     }
                     let ind3 = format!("{}    ", ind2);
                     render_items(b, &ind3, out);
                     out.push_str(&format!("{}}}\n", ind2));
                 }
-                out.push_str(&format!("{}}}\n", ind));
+                out.push_str(&format!("{}{}}}\n", ind, if expr_pos { "}" } else { "" }));
             }
+            Item::Other(v) => out.push_str(&format!("{}{}\n", ind, ["use  a :: b;", "struct  S ;", "foo ! ( );", "const  C : u8 = 1 ;"][*v as usize % 4])),
+            Item::Junk(v) => out.push_str(&format!("{}{}\n", ind, ["this is junk", "fn ()", "mod ;", "struct"][*v as usize % 4])),
         }
     }
 }
@@ -340,6 +445,11 @@ struct Params {
     path_p: usize,
     cfg_attr_p: usize,
     macro_p: usize,
+    /// a macro call directly in a block of a macro call; tokens that are no item in a block; a skeleton other than the
+    /// well-formed chain
+    nested_p: usize,
+    junk_p: usize,
+    shape_p: usize,
     quirk_p: usize,
     missing_p: usize,
     ambiguous_p: usize,
@@ -352,6 +462,8 @@ struct Gen<'a> {
     p: Params,
     tree: Tree,
     faults: Vec<String>,
+    /// > 0 while the content of a macro body is generated
+    in_macro: usize,
 }
 
 impl<'a> Gen<'a> {
@@ -396,33 +508,89 @@ impl<'a> Gen<'a> {
         }
     }
 
+    /// A `cfg_if!` / `cfg_match!` call with `take` declarations spread over 1..=3 blocks, plus (by chance) other items,
+    /// the same `mod` in a second block, a macro call directly in a block, tokens that are no item, a skeleton the
+    /// parser accepts although the macro does not, or one it rejects.
+    fn rand_macro(&mut self, depth: usize, take: usize, nest: usize) -> Item {
+        self.in_macro += 1;
+        let mut nb = self.r.range(1, 3);
+        let mut branches: Vec<Vec<Item>> = (0..nb).map(|_| vec![]).collect();
+        for _ in 0..take {
+            let b = self.r.below(nb);
+            let d = self.rand_decl(depth);
+            branches[b].push(d);
+        }
+        // the same `mod x;` in two blocks: both name the same file
+        if nb > 1 && self.pct(20) {
+            let from = self.r.below(nb);
+            if let Some(d) = branches[from].iter().find(|d| matches!(d, Item::Ext { .. })).cloned() {
+                let to = (from + 1 + self.r.below(nb - 1)) % nb;
+                branches[to].push(d);
+            }
+        }
+        for b in 0..nb {
+            if self.pct(25) {
+                let v = self.r.below(4) as u8;
+                let at = self.r.below(branches[b].len() + 1);
+                branches[b].insert(at, Item::Other(v));
+            }
+            // a macro call directly in a block (dropped by the parser with everything in it)
+            if nest > 0 && self.pct(self.p.nested_p) {
+                let t = self.r.range(1, 2);
+                let m = self.rand_macro(depth, t, nest - 1);
+                let at = self.r.below(branches[b].len() + 1);
+                branches[b].insert(at, m);
+            }
+            if self.pct(self.p.junk_p) {
+                let v = self.r.below(4) as u8;
+                let at = self.r.below(branches[b].len() + 1);
+                branches[b].insert(at, Item::Junk(v));
+            }
+        }
+        let is_if = self.pct(70);
+        let shape = if self.pct(self.p.shape_p) {
+            if self.pct(40) {
+                // needs: cfg_if three blocks (`if`, `else`, one more), cfg_match two arms (`_` first)
+                while nb < if is_if { 3 } else { 2 } {
+                    branches.push(vec![]);
+                    nb += 1;
+                }
+                Shape::Loose(self.r.below(2) as u8)
+            } else {
+                let v = self.r.below(if is_if { 3 } else { 2 }) as u8;
+                if is_if && v == 2 && nb < 2 {
+                    branches.push(vec![]);
+                }
+                Shape::Broken(v)
+            }
+        } else {
+            Shape::Chain
+        };
+        self.in_macro -= 1;
+        let qualified = self.pct(50);
+        if is_if { Item::CfgIf { shape, branches, qualified } } else { Item::CfgMatch { shape, branches, qualified } }
+    }
+
     fn rand_items(&mut self, depth: usize, n: Option<usize>) -> Vec<Item> {
         let n = n.unwrap_or_else(|| if depth >= 2 { *self.r.pick(&[0usize, 1, 1, 2, 2, 3]) } else { *self.r.pick(&[0usize, 1, 1, 2]) });
         let mut ds = vec![];
         let mut k = 0;
         while k < n {
             if self.pct(self.p.macro_p) {
-                // a macro group takes 1..=3 of the remaining declarations, spread over 1..=3 branches
+                // a macro group takes 1..=3 of the remaining declarations
                 let take = self.r.range(1, 3).min(n - k);
-                let nb = self.r.range(1, 3);
-                let mut branches: Vec<Vec<Item>> = (0..nb).map(|_| vec![]).collect();
-                for _ in 0..take {
-                    let b = self.r.below(nb);
-                    let d = self.rand_decl(depth);
-                    branches[b].push(d);
-                }
                 k += take;
-                let qualified = self.pct(50);
-                if self.pct(70) {
-                    let nested = if self.pct(30) { Some((*self.r.pick(&DECOY_NAMES)).to_string()) } else { None };
-                    ds.push(Item::CfgIf { branches, nested, qualified });
-                } else {
-                    ds.push(Item::CfgMatch { branches, qualified });
-                }
+                let m = self.rand_macro(depth, take, 2);
+                ds.push(m);
             } else {
                 ds.push(self.rand_decl(depth));
                 k += 1;
             }
+        }
+        // inside a macro body an inline module may hold tokens that are no item (the module then does not parse)
+        if self.in_macro > 0 && !ds.is_empty() && self.pct(self.p.junk_p / 2) {
+            let v = self.r.below(4) as u8;
+            ds.push(Item::Junk(v));
         }
         ds
     }
@@ -564,13 +732,16 @@ fn gen_case(id: usize, r: &mut Rng) -> CaseSpec {
     let p = Params {
         path_p: *r.pick(&[0usize, 12, 12, 30]),
         cfg_attr_p: *r.pick(&[0usize, 0, 0, 0, 15]),
-        macro_p: *r.pick(&[0usize, 10, 25]),
+        macro_p: *r.pick(&[0usize, 10, 25, 40]),
+        nested_p: *r.pick(&[0usize, 0, 15]),
+        junk_p: *r.pick(&[0usize, 0, 8]),
+        shape_p: *r.pick(&[0usize, 0, 15]),
         quirk_p: *r.pick(&[0usize, 0, 15]),
         missing_p: *r.pick(&[0usize, 0, 0, 6]),
         ambiguous_p: *r.pick(&[0usize, 0, 0, 15]),
         budget: *r.pick(&[3usize, 5, 8, 12]),
     };
-    let mut g = Gen { r, p, tree: Tree::new(), faults: vec![] };
+    let mut g = Gen { r, p, tree: Tree::new(), faults: vec![], in_macro: 0 };
     let crate_dir = (*g.r.pick(&["", "", "src", "p/q"])).to_string();
     let rootname = *g.r.pick(&["lib.rs", "lib.rs", "lib.rs", "main.rs", "main.rs", "a.rs", "mod.rs"]);
     let stem = &rootname[..rootname.len() - 3];
@@ -1139,8 +1310,24 @@ pub fn run(tier: &str, seed: u64, out: &Path) -> i32 {
         for f in shapes {
             o.count(&format!("shape:{}", f));
         }
-        if all_items.iter().any(|f| f.items.iter().any(|it| matches!(it, Item::CfgIf { nested: Some(_), .. }))) {
-            o.count("shape:mod-in-nested-cfg_if(never resolved)");
+        let mut ms = MacroStats::default();
+        for f in &all_items {
+            macro_stats(&f.items, false, &mut ms);
+        }
+        for (on, what) in [
+            (ms.nested_with_mod, "macro:mod-in-a-call-directly-in-a-block(never resolved, F13h shape)"),
+            (ms.junk, "macro:block-with-tokens-that-are-no-item(call given up, F13i shape)"),
+            (ms.loose, "macro:skeleton-only-rustfmt-accepts"),
+            (ms.broken, "macro:skeleton-rejected"),
+            (ms.same_mod_twice, "macro:same-mod-in-two-blocks"),
+            (ms.inline_in_block, "macro:inline-module-in-a-block"),
+            (ms.attr_in_block, "macro:#[path]-or-skip-on-a-mod-in-a-block"),
+            (ms.three_blocks, "macro:three-or-more-blocks"),
+            (ms.mod_after_first_block, "macro:mod-in-a-later-block"),
+        ] {
+            if on {
+                o.count(what);
+            }
         }
         if all_items.iter().any(|f| f.skip) {
             o.count("shape:file-with-#![rustfmt::skip]");
@@ -1148,7 +1335,7 @@ pub fn run(tier: &str, seed: u64, out: &Path) -> i32 {
         if all_items.iter().any(|f| f.generated) {
             o.count("shape:file-with-@generated");
         }
-        let hyps_ok = p.hyps == "plain:1,closed:1,unique:1,probe:1";
+        let hyps_ok = p.hyps == "plain:1,closed:1,unique:1,probe:1,macros:1";
         o.count(if hyps_ok { "hyps:all" } else { "hyps:not-established" });
         if !hyps_ok {
             for part in p.hyps.split(',') {
@@ -1283,6 +1470,37 @@ pub fn run(tier: &str, seed: u64, out: &Path) -> i32 {
         for ((d, name, rel), ans) in &r.hook_dsp {
             let req = format!("mod.default_submod_path {} {} {} {}", p.fs, enc_path(&pjoin(&base_s, d)), enc_str(name), rel.as_deref().map(enc_str).unwrap_or_else(|| "-".into()));
             o.push("corr", "mod.default_submod_path", req, ans.clone(), desc.clone(), !ans.starts_with("err:notfound"));
+        }
+        // mod.parse_macro: parse_cfg_if / parse_cfg_match alone (in-process hook on the text of one call) against
+        // parseMacroBody; at most three calls per tree
+        let mut n_mac = 0;
+        for f in &all_items {
+            for it in f.items.iter().filter(|it| matches!(it, Item::CfgIf { .. } | Item::CfgMatch { .. })) {
+                if n_mac >= 3 {
+                    break;
+                }
+                n_mac += 1;
+                let mut text = String::new();
+                render_items(std::slice::from_ref(it), "", &mut text);
+                let ans = match std::panic::catch_unwind(|| hcfg::macro_mods(&text)) {
+                    Ok(Ok(v)) if v.len() == 1 => {
+                        let m = &v[0];
+                        let mods = match &m.mods {
+                            Err(_) => "err".to_string(),
+                            Ok(ms) if ms.is_empty() => "_".to_string(),
+                            Ok(ms) => ms.iter().map(|x| if let Some(n) = x.strip_suffix("{}") { format!("i{}", enc_str(n)) } else { format!("e{}", enc_str(x.trim_end_matches(';'))) }).collect::<Vec<_>>().join(","),
+                        };
+                        format!("{}:{}", m.kind, mods)
+                    }
+                    Ok(Ok(v)) => format!("!{}-calls", v.len()),
+                    Ok(Err(e)) => format!("!{}", e),
+                    Err(_) => "panic".into(),
+                };
+                let mut toks = vec!["1".to_string()];
+                enc_item(it, &mut toks);
+                let nontriv = ans.ends_with(":err") || ans.contains(',');
+                o.push("corr", "mod.parse_macro", format!("mod.parse_macro {}", toks.join(",")), ans, desc.clone(), nontriv);
+            }
         }
         // mod.stat: the model's file system against the OS, on spellings with `.` / `..` (absolute keys only)
         if !rel_mode {
@@ -1464,5 +1682,47 @@ fn probes(work: &Path) -> Vec<Value> {
         "what": format!("lib.rs: `fn r() {{ #[path = \"inner.rs\"] mod inner; }}`: rustc compiles inner.rs as part of the crate; rustfmt (exit {:?}) rewrote {:?}: inner.rs is {}", res.code, changed, if fails { "never formatted (the resolver only walks items, not bodies)" } else { "formatted" }),
         "detail": {"listed": listed_of(&res.stdout), "changed": changed}}));
     let _ = std::fs::remove_dir_all(&base);
+
+    // F13h  a `cfg_if!` directly in a block of a `cfg_if!`
+    let chain_if = |branches: Vec<Vec<Item>>| Item::CfgIf { shape: Shape::Chain, branches, qualified: false };
+    let c = probe_case(
+        vec![("lib.rs", file(vec![chain_if(vec![vec![chain_if(vec![vec![ext("x", vec![])]]), ext("y", vec![])]])])), ("x.rs", file(vec![])), ("y.rs", file(vec![]))],
+        "lib.rs",
+    );
+    let r = run_case(&c, &pdir("h"), false);
+    let fails = r.err.is_none() && r.code == Some(0) && r.changed.contains(&"y.rs".to_string()) && !r.changed.contains(&"x.rs".to_string());
+    out.push(json!({"id": "F13h", "fails": fails,
+        "what": format!("lib.rs: `cfg_if! {{ if #[cfg(unix)] {{ cfg_if! {{ if #[cfg(unix)] {{ mod x; }} }} mod y; }} }}`: after expansion rustc has both modules; rustfmt (exit {:?}) rewrote {:?}: x.rs is {} (parse_cfg_if keeps items of kind Mod only, the inner call is an item of kind MacCall)", r.code, r.changed, if fails { "never formatted" } else { "formatted" }),
+        "detail": detail(&c, &r)}));
+
+    // F13i  one block that does not parse takes the `mod`s of the other blocks with it
+    let c = probe_case(
+        vec![("lib.rs", file(vec![chain_if(vec![vec![ext("x", vec![])], vec![Item::Junk(0)]]), ext("y", vec![])])), ("x.rs", file(vec![])), ("y.rs", file(vec![]))],
+        "lib.rs",
+    );
+    let r = run_case(&c, &pdir("i"), false);
+    let fails = r.err.is_none() && r.code == Some(0) && r.changed.contains(&"y.rs".to_string()) && !r.changed.contains(&"x.rs".to_string());
+    out.push(json!({"id": "F13i", "fails": fails,
+        "what": format!("lib.rs: `cfg_if! {{ if #[cfg(unix)] {{ mod x; }} else {{ this is junk }} }} mod y;`: for rustc the `else` block is a token tree that is parsed only when selected, on unix the crate compiles and has x.rs; rustfmt (exit {:?}) rewrote {:?}: x.rs is {} (parse_cfg_if returns Err at the first block that does not parse and drops what it had collected)", r.code, r.changed, if fails { "never formatted" } else { "formatted" }),
+        "detail": detail(&c, &r)}));
+
+    // F13j  (fixed) a token on which parse_item returns Ok(None) made parse_cfg_if / parse_cfg_match spin forever
+    for (k, text) in [("cfg_if", "cfg_if! {\n    if #[cfg(unix)] {\n        mod x;;\n    }\n}\n"), ("cfg_match", "cfg_match! {\n    cfg(unix) => {\n        1\n        mod x;\n    }\n}\n")] {
+        let base = pdir(&format!("j-{}", k));
+        let _ = std::fs::remove_dir_all(&base);
+        std::fs::create_dir_all(&base).ok();
+        std::fs::write(base.join("lib.rs"), format!("fn  r( ){{}}\n{}", text)).ok();
+        std::fs::write(base.join("x.rs"), "fn  i( ){}\n").ok();
+        std::fs::write(base.join("rustfmt.toml"), "").ok();
+        let before = snapshot(&base);
+        let mut cmd = Command::new(rustfmt_bin());
+        cmd.env("LD_LIBRARY_PATH", toolchain_lib()).current_dir(&base).arg("-v").arg("lib.rs");
+        let res = run_cmd(&mut cmd, b"", Duration::from_secs(20));
+        let (changed, _) = diff_snap(&before, &snapshot(&base));
+        out.push(json!({"id": format!("F13j-{}", k), "fails": res.timed_out,
+            "what": format!("lib.rs: a `{}!` block with a token that cannot start an item (`;` after `mod x;`, a literal): rustfmt {} (exit {:?}, rewrote {:?})", k, if res.timed_out { "does not terminate (killed after 20 s)" } else { "terminates" }, res.code, changed),
+            "detail": {"lib.rs": text, "listed": listed_of(&res.stdout), "changed": changed}}));
+        let _ = std::fs::remove_dir_all(&base);
+    }
     out
 }
